@@ -177,11 +177,15 @@ func (b *Builder) Grouping(o interface{}, ident string) *Grouping {
 	g := Grouping{
 		ident: ident,
 	}
-	h, valid := o.(HasGroupings)
+	// not HasGroupings: an rpc or action has groupings and no data definitions of its own
+	h, valid := o.(interface {
+		Definition
+		addGrouping(g *Grouping) error
+	})
 	if !valid {
 		b.setErr(fmt.Errorf("%T does not support groupings", o))
 	} else {
-		g.originalParent = h.(Definition)
+		g.originalParent = h
 		h.addGrouping(&g)
 	}
 
